@@ -104,6 +104,12 @@ def check(ctx):
                "list order preserved, dependency lists filtered only by `id in clone map`", floor=4)
     ctx.guarded(o, lambda o: clone_provenance(ctx, o, ('relations',)))
 
+    o = ctx.ob('outside_links_by_identity', 'R9',
+               "a link end outside the source WBS (`x.wbs != self`) is handed to the copy AS ITSELF, never through a lookup keyed by its "
+               "id in the map that holds the member clones (ids are unique inside one WBS only, C05): dependency lists are rebuilt as "
+               "`[x if x.wbs != self else map[x.id] for x in src.R if x.wbs != self or x.id in map]`", floor=2)
+    ctx.guarded(o, lambda o: clone_provenance(ctx, o, ('outside-identity',)))
+
     o = ctx.ob('owner', 'R4',
                "the copies are attached through WBS().roots = [map[r.id] for r in roots]; WBS.__init__ attaches the sentinel to "
                "the new WBS, roots.setter stores into the sentinel, _attach stores the owner and recurses into children", floor=8)
